@@ -530,13 +530,18 @@ func firstLine(s string) string {
 type lifeCase struct {
 	Name       string `json:"name"`
 	Inbound    bool   `json:"inbound"`
-	Queuers    int    `json:"queuers"`    // 1..2 threads calling QueueMessage
-	PerQ       int    `json:"per_queuer"` // messages per queuer
-	Inv        bool   `json:"inv"`        // one thread calls QueueInventory + a trickle tick
-	Disc       string `json:"disc"`       // "api" (p.Disconnect), "remote-close", "write-error", "none"
+	Queuers    int    `json:"queuers"`               // 1..2 threads calling QueueMessage
+	PerQ       int    `json:"per_queuer"`            // messages per queuer
+	PerQ2      int    `json:"per_queuer2,omitempty"` // messages of the second queuer when different
+	Inv        bool   `json:"inv"`                   // one thread calls QueueInventory + a trickle tick
+	Disc       string `json:"disc"`                  // "api" (p.Disconnect), "remote-close", "write-error", "none"
 	RemotePing bool   `json:"remote_ping"`
 	Bound      int    `json:"bound"`
 	Choices    []int  `json:"choices,omitempty"`
+	// Shard k of N: the subtrees below the first deviation are dealt round-robin
+	// to N processes (every shard also runs the canonical schedule).
+	ShardK int `json:"shard_k,omitempty"`
+	ShardN int `json:"shard_n,omitempty"`
 }
 
 type lifeObs struct {
@@ -578,7 +583,11 @@ func runLife(lc lifeCase, prefix []int) (*vsched.Exec, *lifeObs) {
 			wg.add()
 			vsched.Go(fmt.Sprintf("queuer%d", q), func() {
 				defer wg.done()
-				for k := 0; k < lc.PerQ; k++ {
+				n := lc.PerQ
+				if q == 1 && lc.PerQ2 > 0 {
+					n = lc.PerQ2
+				}
+				for k := 0; k < n; k++ {
 					nonce := uint64(100*(q+1) + k)
 					d := make(chan struct{}, 2)
 					dones[nonce] = d
@@ -785,6 +794,16 @@ func lifeCases(thorough bool) []lifeCase {
 				out = append(out, lifeCase{Name: "2q1", Inbound: inbound, Queuers: 2, PerQ: 1, Disc: disc, Bound: b})
 			}
 		}
+		if !inbound {
+			// a burst of three sends plus a late fourth from another caller, with a
+			// disconnect: three deviations are needed to park the fourth send
+			// behind an in-flight write, so this case runs at bound 3 in both tiers,
+			// sharded over processes by first-deviation subtree
+			const n = 12
+			for k := 0; k < n; k++ {
+				out = append(out, lifeCase{Name: "2q31", Inbound: inbound, Queuers: 2, PerQ: 3, PerQ2: 1, Disc: "api", Bound: 3, ShardK: k, ShardN: n})
+			}
+		}
 		out = append(out, lifeCase{Name: "inv", Inbound: inbound, Queuers: 1, PerQ: 1, Inv: true, Disc: "api", Bound: b})
 		out = append(out, lifeCase{Name: "rping", Inbound: inbound, Queuers: 1, PerQ: 1, RemotePing: true, Disc: "api", Bound: b})
 	}
@@ -849,6 +868,7 @@ func classify(what string) string {
 // exploreLife is the preemption-bounded DFS for one lifecycle case.
 func exploreLife(lc lifeCase, stop func() bool) shardResult {
 	res := shardResult{Outcomes: map[string]int{}, Complete: true}
+	topCount := 0
 	var explore func(prefix []int)
 	explore = func(prefix []int) {
 		if stop() {
@@ -871,8 +891,9 @@ func exploreLife(lc lifeCase, stop func() bool) shardResult {
 			same := true
 			for k := 0; k < 2; k++ {
 				x2, o2 := runLife(lc, c)
-				_, v2 := checkLife(lc, x2, o2)
-				if v2 != viol {
+				out2, v2 := checkLife(lc, x2, o2)
+				// (descriptions carry channel addresses, so compare the verdict class)
+				if out2 != outcome || (v2 == "") != (viol == "") {
 					same = false
 				}
 			}
@@ -902,6 +923,12 @@ func exploreLife(lc lifeCase, stop func() bool) shardResult {
 				continue
 			}
 			for alt := 1; alt < len(p.Enabled); alt++ {
+				if len(prefix) == 0 && lc.ShardN > 1 {
+					topCount++
+					if topCount%lc.ShardN != lc.ShardK {
+						continue
+					}
+				}
 				explore(append(append([]int(nil), x.Choices()[:i]...), alt))
 			}
 		}
@@ -999,7 +1026,7 @@ func main() {
 			lifeExecs += res.Evals
 			var idx int
 			fmt.Sscan(jobs[i].args[2], &idx)
-			perCase[fmt.Sprintf("%s/inbound=%v/disc=%s/bound=%d", lcs[idx].Name, lcs[idx].Inbound, lcs[idx].Disc, lcs[idx].Bound)] = map[string]interface{}{"schedules": res.Evals, "distinct_outcomes": len(res.Outcomes), "complete": res.Complete}
+			perCase[fmt.Sprintf("%s/inbound=%v/disc=%s/bound=%d/shard=%d", lcs[idx].Name, lcs[idx].Inbound, lcs[idx].Disc, lcs[idx].Bound, lcs[idx].ShardK)] = map[string]interface{}{"schedules": res.Evals, "distinct_outcomes": len(res.Outcomes), "complete": res.Complete}
 		}
 		points += res.Points
 		for k, v := range res.Outcomes {
